@@ -517,7 +517,7 @@ def run(tier):
         except (RuntimeError, ValueError) as e:
             die_broken("base image: %s" % e)
         rng = random.Random(seed())
-        n = 672 if tier == "quick" else 22400            # multiples of |damage kinds| x |feature configurations| = 224
+        n = 672 if tier == "quick" else 13440            # multiples of |damage kinds| x |feature configurations| = 224 (each journal: 3 replays + up to 3 of its second life)
         off = (seed() * 7919) % 224
         journals = []
         for i in range(n):
